@@ -135,6 +135,65 @@ let () =
   reg "DIS" dis;
   reg "DD" (fun a -> dec_str [] (bytes_of_hex (List.nth a 0)) ^ " || " ^ dis a)
 
+
+(* ---- renderer ---- *)
+let calls_of_toks toks =
+  List.filter_map (fun a -> match a with ACall c -> Some c | _ -> None) (acts_of_toks toks)
+
+let paint_str (p : z paint) : string =
+  match p with
+  | PFlat c -> "F#" ^ hex_of_rgba c
+  | PGrad g ->
+      let stops = String.concat "," (List.map (fun st -> f64s (convert f32 f64 st.gs_off) ^ "#" ^ hex_of_rgba st.gs_col) g.g_stops) in
+      let mat = String.concat "," (List.map f64s (pix2grad g)) in
+      Printf.sprintf "G%d%d[%s](%s)" (int_of_z g.g_shape) (int_of_z g.g_spread) stops mat
+
+let rcall_str (c : z rcall) : string =
+  match c with
+  | RReset (w, h) -> Printf.sprintf "r%dx%d" (int_of_z w) (int_of_z h)
+  | RMoveTo (x, y) -> "m " ^ f32s x ^ " " ^ f32s y
+  | RLineTo (x, y) -> "l " ^ f32s x ^ " " ^ f32s y
+  | RQuadTo (a, b, c, d) -> String.concat " " ("q" :: List.map f32s [a; b; c; d])
+  | RCubeTo (a, b, c, d, e, f) -> String.concat " " ("c" :: List.map f32s [a; b; c; d; e; f])
+  | RClose -> "z"
+  | RDraw (x0, y0, x1, y1, p) ->
+      Printf.sprintf "d %d,%d,%d,%d %s" (int_of_z x0) (int_of_z y0) (int_of_z x1) (int_of_z y1) (paint_str p)
+
+let run_ren x0 y0 w h toks =
+  let s0 = rinit n32 (z_of_dec x0) (z_of_dec y0) (z_of_dec w) (z_of_dec h) in
+  rrun32 s0 (calls_of_toks toks)
+
+let () =
+  reg "REN" (fun a ->
+    match a with
+    | x0 :: y0 :: w :: h :: toks ->
+        let s = run_ren x0 y0 w h toks in
+        String.concat " " (List.map rcall_str s.r_log) ^
+        Printf.sprintf " | cs=%d ns=%d" (int_of_z s.r_csel) (int_of_z s.r_nsel)
+    | _ -> failwith "REN");
+  (* gradient evaluation: GRAD x0 y0 w h npix x,y ... calls: At() of every gradient paint drawn, at the pixels *)
+  reg "GRAD" (fun a ->
+    match a with
+    | x0 :: y0 :: w :: h :: np :: rest ->
+        let np = int_of_string np in
+        let (pix, toks) = take np rest in
+        let pix = List.map (fun s -> match String.split_on_char ',' s with
+                                     | [x; y] -> (z_of_dec x, z_of_dec y) | _ -> failwith "pix") pix in
+        let s = run_ren x0 y0 w h toks in
+        let outs = List.filter_map (fun c -> match c with
+          | RDraw (_, _, _, _, PGrad g) ->
+              Some (String.concat "," (List.map (fun (x, y) ->
+                let c = grad_at g x y in
+                Printf.sprintf "%04x%04x%04x%04x" (int_of_z c.c_r) (int_of_z c.c_g) (int_of_z c.c_b) (int_of_z c.c_a)) pix))
+          | RDraw (_, _, _, _, PFlat c) -> Some ("flat#" ^ hex_of_rgba c)
+          | _ -> None) s.r_log in
+        String.concat " " outs
+    | _ -> failwith "GRAD");
+  reg "CLAMP" (fun a -> f64s (clamp (z_of_dec (List.nth a 0)) (z_of_hex (List.nth a 1))));
+  reg "TRIG" (fun a ->
+    let x = z_of_hex (List.nth a 1) in
+    f64s (match List.nth a 0 with "sin" -> gosin x | "cos" -> gocos x | _ -> goacos x))
+
 let () =
   let out = Buffer.create (1 lsl 16) in
   (try
